@@ -177,6 +177,14 @@ def stepJ (s : DSt) (j : Json) : DSt × Json :=
   | "loadinst" =>
     let defs := serialize fl s.lib s.sg [natF j "root"]
     (s, Json.mkObj [("log", logJ (if boolF j "body" then runLog defs else loadInstanceLog defs))])
+  | "generation2" =>
+    (s, match reloadTwice fl s.lib s.sg roots with
+      | .ok (l1, defs2, l2) =>
+        let sg1 := regraph l1 s.sg.g.size
+        let r := roots.headD 0
+        Json.mkObj [("defs", Json.arr (defs2.map (defJ sg1)).toArray), ("objs", loadedJ l2),
+                    ("id", hexOf (fullId hc (toGraph l2 s.sg.g.size) r)), ("orig", hexOf (fullId hc s.sg.g r))]
+      | .error e => errJ e)
   | "instvalues" =>
     (s, match instanceValues (serialize fl s.lib s.sg [natF j "root"]) with
       | .ok l => Json.mkObj [("values", Json.arr (l.map (fun (p : Nat × List (List Nat × Val)) =>
